@@ -31,33 +31,33 @@ type KnownFile struct {
 }
 
 type PropSpec struct {
-	ID         string
-	Title      string
-	Classes    *regexp.Regexp // obligation classes that belong to the property for tagged functions (nil = all)
-	Extra      func(c *Checker) // additional, property specific obligations / analyses
-	Replay     func(c *Checker, o *Obl) map[string]interface{} // property-level replay for obligations without a recipe
-	MinObls    int
+	ID          string
+	Title       string
+	Classes     *regexp.Regexp                                  // obligation classes that belong to the property for tagged functions (nil = all)
+	Extra       func(c *Checker)                                // additional, property specific obligations / analyses
+	Replay      func(c *Checker, o *Obl) map[string]interface{} // property-level replay for obligations without a recipe
+	MinObls     int
 	TrustedBase []string
 	Assumptions []string
 	NotDecided  []string
 }
 
 type Checker struct {
-	W        *World
-	Prop     *PropSpec
-	Tier     string
-	Seed     int
-	Timeout  int
-	Dir      string
-	Verif    string
-	Encs     []*enc
-	EncOf    map[*Obl]*enc
-	Obls     []*Obl
-	Bounded  []map[string]interface{}
-	Audits   []map[string]interface{}
-	Notes    []string
+	W         *World
+	Prop      *PropSpec
+	Tier      string
+	Seed      int
+	Timeout   int
+	Dir       string
+	Verif     string
+	Encs      []*enc
+	EncOf     map[*Obl]*enc
+	Obls      []*Obl
+	Bounded   []map[string]interface{}
+	Audits    []map[string]interface{}
+	Notes     []string
 	engineErr []string
-	mu       sync.Mutex
+	mu        sync.Mutex
 }
 
 var propSpecs = map[string]*PropSpec{}
